@@ -95,6 +95,7 @@ pub fn replay(f: &Failure) -> i32 {
         "c16" => crate::core::replay_case(f, c16::case),
         "c17a" | "c17r" | "c17p" | "c17x" => crate::core::replay_case(f, c17::case),
         "c18" => crate::core::replay_case(f, c18::case),
+        "c18-0rtt" => crate::core::replay_case(f, c18::case_0rtt),
         "c19" | "c19-enum" => crate::core::replay_case(f, c19::case),
         "c19-fallback" => crate::core::replay_case(f, c19::case_degraded),
         "c20" => crate::core::replay_case(f, c20::case),
